@@ -174,6 +174,7 @@ impl Source for SimSource {
     }
 
     fn read_samples<F: Fill>(&mut self, block_size: usize, dest: &mut F) -> Result<usize, SourceError> {
+        super::rng::tick();
         let k = self.reads;
         self.reads += 1;
         if self.errored {
